@@ -192,7 +192,9 @@ def same_label(a, b):
 DTYPES = {
     "float": dict(alpha=[0.0, 1.0, 2.0, -1.0, 0.5, NAN], np=float),
     "int": dict(alpha=[0, 1, 2, -1, 5], np=int),
-    "str": dict(alpha=["a", "b", "c", "nan", "", "bb"], np=str),
+    # "n", "na", "N", "No" are prefixes of the string forms of the sentinels 'nan' / None: narrow string arrays (<U1, <U2)
+    # containing them expose comparisons made after truncating the sentinel to the array's item size
+    "str": dict(alpha=["a", "b", "c", "nan", "", "bb", "n", "na", "N", "No"], np=str),
     "object": dict(alpha=[None, "a", "b", "nan", ""], np=object),
     "objnum": dict(alpha=[None, 0, 1, 2], np=object),
 }
